@@ -608,41 +608,56 @@ Proof.
   induction ts as [|t ts IH]; intros pending out errs e H; simpl; [exact H|].
   destruct (t_kind t); try (apply IH; exact H).
   destruct ((MAXI32_PLUS1 <? dec_value (t_raw t) 0)%N
-            || (dec_value (t_raw t) 0 =? MAXI32_PLUS1)%N
-               && match pending with Some _ => false | None => true end).
+            || (dec_value (t_raw t) 0 =? MAXI32_PLUS1)%N && negb (pending_is_minus pending)).
   - apply IH. apply in_or_app. left. exact H.
   - destruct (dec_value (t_raw t) 0 =? MAXI32_PLUS1)%N; [|apply IH; exact H].
-    destruct pending as [q|]; [|apply IH; exact H].
-    destruct (is_minus q); apply IH; exact H.
+    destruct pending as [q|]; apply IH; exact H.
 Qed.
 
-(* every integer token above 2^31 gets "Not a 32-bit integer." *)
+(* the gate, as the code takes it for the token at the head: a literal above 2^31, or equal to
+   2^31 and not directly after a minus operator, gets "Not a 32-bit integer." *)
+Lemma produce_reports_head : forall t ts pending out errs,
+  t_kind t = KInt ->
+  ((MAXI32_PLUS1 < dec_value (t_raw t) 0)%N \/
+   (dec_value (t_raw t) 0 = MAXI32_PLUS1 /\ pending_is_minus pending = false)) ->
+  In (ENotInt32 (t_start t) (t_end t)) (snd (produce (t :: ts) pending out errs)).
+Proof.
+  intros t ts pending out errs Hk Hv. simpl. rewrite Hk.
+  assert (C : ((MAXI32_PLUS1 <? dec_value (t_raw t) 0)%N
+               || (dec_value (t_raw t) 0 =? MAXI32_PLUS1)%N && negb (pending_is_minus pending)) = true).
+  { destruct Hv as [Hv|[Hv Hp]].
+    - apply N.ltb_lt in Hv. rewrite Hv. reflexivity.
+    - rewrite Hv, N.eqb_refl, Hp. apply orb_true_r. }
+  rewrite C. apply produce_errs_incl. apply in_or_app. right. left. reflexivity.
+Qed.
+
+(* every integer token above 2^31, wherever it stands, gets the diagnostic *)
 Lemma produce_reports_big : forall ts pending out errs t,
   In t ts -> t_kind t = KInt -> (MAXI32_PLUS1 < dec_value (t_raw t) 0)%N ->
   In (ENotInt32 (t_start t) (t_end t)) (snd (produce ts pending out errs)).
 Proof.
   induction ts as [|t0 ts IH]; intros pending out errs t Hin Hk Hv; [contradiction|].
   destruct Hin as [->|Hin].
-  - simpl. rewrite Hk. apply N.ltb_lt in Hv. rewrite Hv. simpl.
-    apply produce_errs_incl. apply in_or_app. right. left. reflexivity.
+  - apply produce_reports_head; auto.
   - simpl. destruct (t_kind t0); try (apply IH; assumption).
     destruct ((MAXI32_PLUS1 <? dec_value (t_raw t0) 0)%N
-              || (dec_value (t_raw t0) 0 =? MAXI32_PLUS1)%N
-                 && match pending with Some _ => false | None => true end);
+              || (dec_value (t_raw t0) 0 =? MAXI32_PLUS1)%N && negb (pending_is_minus pending));
       [apply IH; assumption|].
     destruct (dec_value (t_raw t0) 0 =? MAXI32_PLUS1)%N; [|apply IH; assumption].
-    destruct pending as [q|]; [|apply IH; assumption].
-    destruct (is_minus q); apply IH; assumption.
+    destruct pending as [q|]; apply IH; assumption.
 Qed.
 
-(* ... but 2147483648 itself passes unless it is the first token (DESIGN section 7 #10):
-   `x 2147483648` lexes to two tokens and no diagnostic *)
-Lemma int_gate_witness :
-  exists ts, lex [120; 32; 50; 49; 52; 55; 52; 56; 51; 54; 52; 56]%N = Ok (ts, []) /\
-  exists t, In t ts /\ t_kind t = KInt /\ dec_value (t_raw t) 0 = MAXI32_PLUS1.
+(* `x 2147483648` (the witness of DESIGN section 7 #10 on the pinned tree) is now reported, and
+   `-2147483648` is merged without a diagnostic *)
+Lemma int_gate_examples :
+  (exists ts, lex [120; 32; 50; 49; 52; 55; 52; 56; 51; 54; 52; 56]%N
+              = Ok (ts, [ENotInt32 (0, 2) (0, 12)])) /\
+  (exists t, lex [45; 50; 49; 52; 55; 52; 56; 51; 54; 52; 56]%N = Ok ([t], []) /\
+             t_raw t = [45; 50; 49; 52; 55; 52; 56; 51; 54; 52; 56]%N).
 Proof.
-  eexists. split; [vm_compute; reflexivity|].
-  eexists. split; [right; left; reflexivity|]. split; reflexivity.
+  split.
+  - eexists. vm_compute. reflexivity.
+  - eexists. split; vm_compute; reflexivity.
 Qed.
 
 (* the class of the repaired finding: inputs without `/**/` never reached the unguarded slice *)
